@@ -19,6 +19,8 @@ RULE = (
     "builds the expected value with an injective, hashable Box(leaf) substituted; result must be "
     "deep-typed-equal (types compared at every level); the multiset (by identity) of leaves the mapped "
     "function was called on must equal both list(iter_nested_value(v)) and the reference leaf list. "
+    "(the scheduler pass also re-runs the value with one leaf expression that has already failed and been "
+    "handled by a catch under the same job: the container must fail, not be delivered) "
     "A second pass puts task expressions at leaf positions and requires Scheduler.run to return the "
     "structure with results substituted. Non-trivial = depth>=3 with >=2 container kinds incl. a "
     "dataclass or named tuple."
@@ -200,6 +202,26 @@ def get_ident():
     return _sched["ident"]
 
 
+def get_failing():
+    if "bad" not in _sched:
+        from redun import task
+
+        @task(namespace="vf_c19", name="bad")
+        def bad(x):
+            raise ValueError(f"bad {x}")
+
+        @task(namespace="vf_c19", name="recover")
+        def recover(err):
+            return -1
+
+        @task(namespace="vf_c19", name="consume")
+        def consume(v):
+            return ["consumed", v]
+
+        _sched["bad"] = (bad, recover, consume)
+    return _sched["bad"]
+
+
 def sched_oracle(ctx: Ctx, spec) -> int:
     from redun import Scheduler
 
@@ -218,7 +240,31 @@ def sched_oracle(ctx: Ctx, spec) -> int:
         raise Violation(f"scheduler-raises:{type(e).__name__}", f"Scheduler.run on nested value raised {type(e).__name__}: {str(e)[:200]}", espec)
     if not V.deep_typed_equal(out, exp):
         raise Violation("scheduler-nested-differs", f"Scheduler.run gave {out!r}, expected {exp!r}", espec)
-    return counter[0]
+    # A nested expression that has ALREADY failed under this parent job (it was handled by a catch
+    # just before) must still make the container fail: it is never replaced by its error object.
+    if not isinstance(v, (list, tuple, dict)) and not dataclasses.is_dataclass(v):
+        return counter[0]
+    from redun.functools import seq
+    from redun.scheduler import catch
+
+    bad, recover, consume = get_failing()
+    first = [None]
+
+    def leaf(n):
+        if first[0] is None:
+            first[0] = n
+        return bad(n) if n == first[0] else ident(n)
+
+    vb = build_e(espec, leaf)
+    try:
+        out2 = sched.run(seq([catch(bad(first[0]), ValueError, recover), consume(vb)]))
+    except ValueError:
+        return counter[0]
+    except Exception as e:  # noqa: BLE001
+        raise Violation(f"scheduler-raises:{type(e).__name__}", f"nested value with a failed expression: {type(e).__name__}: {str(e)[:200]}", espec)
+    raise Violation("scheduler-nested-failed-expression-delivered",
+                    f"a container holding an expression that had already failed under this job was delivered to a task "
+                    f"(result {out2!r:.200}) instead of failing", espec)
 
 
 def run_case(ctx: Ctx, spec) -> None:
